@@ -295,7 +295,8 @@ SVerdict(s) ==
   ELSE IF s.v = "dead" THEN "reject"
   ELSE CASE s.st \in {"lc", "iaStart", "iaText", "iaAfterObj"} ->          \* ended by the end of the input
               IF CompleteAtTop(Ret(Top(s.sk)), Pop(s.sk)) THEN "accept" ELSE "reject"
-         [] s.st \in {"hash1", "iaHash1", "bc0", "bc", "bc1", "bc2"} -> "unspec"       \* lone # / unterminated block comment
+         [] s.st \in {"hash1", "iaHash1"} -> "unspec"                                  \* a lone # at the end
+         [] s.st \in {"bc0", "bc", "bc1", "bc2"} -> "reject"                            \* the input ends inside a ### comment
          [] OTHER -> IF CompleteAtTop(s.st, s.sk) THEN "accept" ELSE "reject"
 
 RECURSIVE SRun(_, _)
